@@ -63,8 +63,37 @@ impl State {
         &&& self.permits + (if need > self.refresh_ticks { need - self.refresh_ticks } else { 0 }) >= self.reserved + p
     }
 }
+// one write to the limiter state that grants g >= 0 permits: the potential  free - clock  drops by at least g
+// (a tick adds at most one permit; a reservation moves permits from free to granted; consumption removes a reserved permit)
+pub open spec fn step(a: State, b: State, g: int, l: &Limiter) -> bool {
+    g >= 0 && b.inv(l) && b.free() + g - b.refresh_ticks <= a.free() - a.refresh_ticks && b.refresh_ticks >= a.refresh_ticks
+}
 // A6: the i128 tick counter (elapsed nanoseconds / refresh period, or the tick an acquire waits for) stays far below 2^127
 pub spec const TICKS_BOUND: int = 0x4000_0000_0000_0000_0000_0000_0000_0000int;
+"""
+
+
+LEMMA_WINDOW = r"""
+// ---------------- C15: the window bound, over any sequence of writes to the limiter state ----------------
+// Every write to the state is one of the three closures above (State::advance inside them); each is proved to be a `step`.
+// Along ANY sequence of steps the permits granted are bounded by the free permits at the start plus the ticks the limiter clock
+// advanced: at most  burst + (ticks elapsed)  -- with ticks = floor(elapsed time / refresh period) that is  b + T/r (+1 for the
+// partial period at the window's ends).
+pub open spec fn sum_to(g: Seq<int>, k: int) -> int decreases k { if k <= 0 { 0 } else { sum_to(g, k - 1) + g[k - 1] } }
+pub proof fn lemma_window(st: Seq<State>, g: Seq<int>, l: &Limiter, k: int)
+    requires st.len() == g.len() + 1, 0 <= k <= g.len(), st[0].inv(l),
+             forall|i: int| 0 <= i < g.len() ==> step(#[trigger] st[i], st[i + 1], g[i], l),
+    ensures
+        st[k].inv(l),
+        sum_to(g, k) <= st[0].free() - st[k].free() + (st[k].refresh_ticks - st[0].refresh_ticks),
+        sum_to(g, k) <= l.burst + (st[k].refresh_ticks - st[0].refresh_ticks),
+    decreases k
+{
+    if k > 0 {
+        lemma_window(st, g, l, k - 1);
+        assert(step(st[k - 1], st[k], g[k - 1], l));
+    }
+}
 """
 
 
@@ -102,6 +131,7 @@ def build(repo):
                 else { l.burst as int }),
             // a pending reservation stays grantable
             forall|need: int, p: int| #[trigger] old(self).can_grant(l, need, p) ==> final(self).can_grant(l, need, p),
+            step(*old(self), *final(self), 0, l),
 """)
     # Drop for Permit: the closure handed to send_modify, lifted
     U.lift_closure(F, "impl Drop for Permit<'_> :: fn drop", "|s|", "permit_drop_closure",
@@ -126,6 +156,7 @@ def build(repo):
             final(s).reserved == old(s).reserved - this.permits,
             // consuming reserved permits never makes a pending reservation un-grantable
             forall|need: int, p: int| #[trigger] old(s).can_grant(this.limiter, need, p) ==> final(s).can_grant(this.limiter, need, p),
+            step(*old(s), *final(s), 0, this.limiter),
 """)
     # acquire: final critical section, lifted
     U.lift_closure(F, "impl Limiter :: fn acquire", "|s| {\n            s.advance(need, self);", "acquire_commit_closure",
@@ -135,7 +166,9 @@ def build(repo):
     requires old(s).inv(this), need < TICKS_BOUND,
              old(s).can_grant(this, need as int, permits as int),      // rely: since the wait only Permit::drop ran (A4)
     ensures final(s).inv(this), final(s).reserved == old(s).reserved + permits, !r,
+            step(*old(s), *final(s), permits as int, this),       // the ONLY step that grants permits
 """)
+    U.raw(LEMMA_WINDOW, label="lemma window bound", canary=True)
     U.raw("""
 // ---------------- stubs for the enclosing functions (A4) ----------------
 #[verifier::external_body] pub fn canceled_value() -> Canceled { unimplemented!() }
